@@ -1,0 +1,103 @@
+//go:build verif
+
+package evaluator
+
+import (
+	"fmt"
+	"math"
+	"sort"
+	"strings"
+)
+
+// VerifGlobalsSX returns the same structural dump as VerifGlobals as one
+// S-expression: (("name" <cell>) ...) with <cell> one of
+// (id num <bits>) (id str "s") (id bool true|false) (id any "type" <cell>)
+// (id arr <cell>...) (id map ("key" <cell>)...) (ref id) none nil.
+func (e *Evaluator) VerifGlobalsSX() string {
+	names := make([]string, 0, len(e.global.values))
+	for name := range e.global.values {
+		names = append(names, name)
+	}
+	sort.Strings(names)
+	ids := map[any]int{}
+	parts := make([]string, 0, len(names))
+	for _, name := range names {
+		parts = append(parts, "("+verifQuote(name)+" "+verifDumpSX(e.global.values[name], ids)+")")
+	}
+	return "(" + strings.Join(parts, " ") + ")"
+}
+
+func verifQuote(s string) string {
+	var b strings.Builder
+	b.WriteByte('"')
+	for i := 0; i < len(s); i++ {
+		c := s[i]
+		switch {
+		case c == '"':
+			b.WriteString(`\"`)
+		case c == '\\':
+			b.WriteString(`\\`)
+		case c == '\n':
+			b.WriteString(`\n`)
+		case c == '\t':
+			b.WriteString(`\t`)
+		case c == '\r':
+			b.WriteString(`\r`)
+		case c < 32 || c == 127:
+			fmt.Fprintf(&b, `\x%02x`, c)
+		default:
+			b.WriteByte(c)
+		}
+	}
+	b.WriteByte('"')
+	return b.String()
+}
+
+func verifDumpSX(v value, ids map[any]int) string {
+	if v == nil {
+		return "nil"
+	}
+	var key any = v
+	switch x := v.(type) {
+	case *arrayVal:
+		key = x.Elements
+	case *mapVal:
+		key = x.Order
+	case *noneVal:
+		return "none"
+	}
+	if id, ok := ids[key]; ok {
+		return fmt.Sprintf("(ref %d)", id)
+	}
+	id := len(ids) + 1
+	ids[key] = id
+	switch x := v.(type) {
+	case *numVal:
+		bits := math.Float64bits(x.V)
+		if x.V != x.V {
+			bits = 0x7ff8000000000000
+		}
+		return fmt.Sprintf("(%d num %d)", id, bits)
+	case *stringVal:
+		return fmt.Sprintf("(%d str %s)", id, verifQuote(x.V))
+	case *boolVal:
+		return fmt.Sprintf("(%d bool %v)", id, x.V)
+	case *anyVal:
+		return fmt.Sprintf("(%d any %s %s)", id, verifQuote(x.T.String()), verifDumpSX(x.V, ids))
+	case *arrayVal:
+		parts := make([]string, 0, len(*x.Elements)+2)
+		parts = append(parts, fmt.Sprint(id), "arr")
+		for _, el := range *x.Elements {
+			parts = append(parts, verifDumpSX(el, ids))
+		}
+		return "(" + strings.Join(parts, " ") + ")"
+	case *mapVal:
+		parts := make([]string, 0, len(*x.Order)+2)
+		parts = append(parts, fmt.Sprint(id), "map")
+		for _, k := range *x.Order {
+			parts = append(parts, "("+verifQuote(k)+" "+verifDumpSX(x.Pairs[k], ids)+")")
+		}
+		return "(" + strings.Join(parts, " ") + ")"
+	}
+	return fmt.Sprintf("(unknown %q)", fmt.Sprintf("%T", v))
+}
